@@ -229,6 +229,7 @@ class Exchange:
         self.clk = 0
         self.last_ocm = None
         self.suspended = False
+        self.applied_refs = set()
 
     # -- helpers
     def _pt(self):
@@ -331,6 +332,13 @@ class Exchange:
         mid = params["marketId"]
         reports = []
         changed = []
+        ref = params.get("customerRef")
+        if ref is not None:
+            if ref in self.applied_refs:
+                # the exchange de-duplicates re-submissions by customerRef (the response of the first one was lost)
+                self.sim.res.probes["live.duplicate_submission_rejected"] += 1
+                return {"status": "FAILURE", "errorCode": "DUPLICATE_TRANSACTION", "marketId": mid, "instructionReports": [], "customerRef": ref}
+            self.applied_refs.add(ref)
         for i, ins in enumerate(params["instructions"]):
             out = self._outcome(plan, i, "FAILURE:MARKET_SUSPENDED" if self.suspended else "SUCCESS")
             rep = {"instruction": ins}
@@ -745,6 +753,9 @@ class LiveRun:
 
     def next_event(self):
         """Runs on the main-loop thread inside handler_queue.get()."""
+        if self.in_main:
+            self.in_main = False
+            _dispatch("step_end")
         while True:
             if self.aborting:
                 return _F["events"].TerminationEvent(None)
@@ -784,6 +795,7 @@ class LiveRun:
                 ev = self.fw.handler_queue.q.popleft()
                 self._sync_clock()
                 _dispatch("main_event", ev)
+                self.in_main = True
                 return ev
             if kind == "task":
                 self.resume(c[1])
@@ -909,7 +921,7 @@ class LiveRun:
             agent = Agent(
                 self,
                 spec,
-                market_filter={"marketIds": [m["id"] for m in sc["markets"]]},
+                market_filter={} if ss.get("empty_filter") else {"marketIds": [m["id"] for m in sc["markets"]]},
                 name=ss["name"],
                 max_order_exposure=ss.get("max_order_exposure", 1000),
                 max_selection_exposure=ss.get("max_selection_exposure", 10000),
@@ -931,9 +943,10 @@ class LiveRun:
                 self.order_stream_id = s.stream_id
                 s._listener.register_stream(s.stream_id, "orderSubscription")
             elif isinstance(s, F["MarketStream"]):
-                self.market_stream = s
                 s._stream = StubStream()
                 s._listener.register_stream(s.stream_id, "marketSubscription")
+                if s.market_filter or self.market_stream is None:
+                    self.market_stream = s
 
     def acts_for(self, market_id, pt):
         return self.cur_update.get(market_id)
@@ -1039,7 +1052,14 @@ class LiveRun:
         res.steps = self.step
         res.sim_seconds = max(0.0, self.now - (sc["markets"][0]["updates"][0]["pt"] / 1000.0 if sc["markets"] else self.now))
         if not res.digest:
-            res.digest = core.digest(self.log)
+            rows = []
+            try:
+                for market in self.fw.markets:
+                    for o in market.blotter:
+                        rows.append((o._vid, o.bet_id, tuple(x.name for x in o.status_log), o.size_matched, o.size_remaining, o.size_cancelled, o.trade.status.name))
+            except Exception:
+                pass
+            res.digest = core.digest((self.log, rows, sorted((k, sorted(v.items())) for k, v in self.exchange.bets.items())))
         return res
 
     def _track_update(self, ev):
@@ -1069,7 +1089,7 @@ class LiveRun:
         self.aborting = False
 
 
-LIVE_HOOKS = list(backtest.HOOKS) + ["api_call", "api_applied", "main_event", "quiescent", "restart"]
+LIVE_HOOKS = list(backtest.HOOKS) + ["api_call", "api_applied", "main_event", "quiescent", "restart", "step_end"]
 
 
 def run_scenario(scenario, monitor_classes, owner=None) -> core.Result:
